@@ -42,7 +42,8 @@ import (
 
 func main() {
 	harness.Main("C09", "exploration",
-		harness.Layer{Name: "stress", Run: stress},
+		harness.Layer{Name: "stress", Run: func(h *harness.H) { stress(h, "stress") }},
+		harness.Layer{Name: "delgc", Run: func(h *harness.H) { stress(h, "delgc") }},
 	)
 }
 
@@ -51,6 +52,7 @@ const (
 	nDelGroups    = 2 // groups populated before the concurrent phase, then deleted from / GC'd
 	sharedKey     = uint32(900)
 	scratchBase   = uint32(1000)
+	nDeletes      = 40
 )
 
 type world struct {
@@ -67,6 +69,16 @@ type world struct {
 	errs   sync.Map // unexpected error text -> count
 	ctx    context.Context
 	order  []string // completion order of operations (interleaving fingerprint)
+	layer  string
+	ever   map[uint32]map[string]int64
+	delLog []string
+}
+
+func (w *world) everTS(k uint32, v []byte) (int64, bool) {
+	w.mu.Lock()
+	defer w.mu.Unlock()
+	ts, ok := w.ever[k][string(v)]
+	return ts, ok
 }
 
 func (w *world) noteErr(what string, err error) {
@@ -84,27 +96,30 @@ func (w *world) done(tag string) {
 	w.mu.Unlock()
 }
 
-func stress(h *harness.H) {
-	h.AddRule("stress: per run one DB on a recording MemFS with yields/sleeps injected at ~3% of filesystem calls; 5 cesium-level writer goroutines (own index+2 data channels each, 3 sessions x 2-4 writes, mixed auto-commit/persist/sync), 3 unary-level writers on End-bounded disjoint regions of one shared channel, 3 readers, 2 streamers, 1 deleter over pre-populated groups, 1 GC worker, 1 channel-admin worker, 1 metrics worker; GOMAXPROCS alternates 2/16 (thorough: 1,2,4,16); a run is non-trivial if >= 200 operations completed; distinct by hash of the operation completion order")
+func stress(h *harness.H, layer string) {
+	h.AddRule("stress: per run one DB on a recording MemFS with yields/sleeps injected at ~3% of filesystem calls; 5 cesium-level writer goroutines (own index+2 data channels each, 3 sessions x 2-4 writes, mixed auto-commit/persist/sync), 3 unary-level writers on End-bounded disjoint regions of one shared channel, 3 readers, 2 streamers, 1 deleter (40 small deletes) over pre-populated groups racing 1 GC worker that loops until the deleter is done (sleeps injected at filesystem calls on the compaction copy), 1 channel-admin worker, 1 metrics worker; GOMAXPROCS alternates 2/16 (thorough: 1,2,4,16); a run is non-trivial if >= 200 operations completed; distinct by hash of the operation completion order")
 	h.Assume("operations are constructed to commute (disjoint channel groups / disjoint End-bounded regions; deletes only on groups whose writers returned before the concurrent phase), so the set of serial results is a single state: the merged per-worker models")
 	h.Assume("read errors observed while other goroutines write are counted, not judged; only the final quiescent state, race reports and stalls decide")
 	n := h.N(12, 240)
+	if layer == "delgc" {
+		n = h.N(6, 120)
+	}
 	procs := []int{2, 16}
 	if h.Thorough() {
 		procs = []int{1, 2, 4, 16}
 	}
 	for c := 0; c < n; c++ {
-		if h.Skip("stress", c) {
+		if h.Skip(layer, c) {
 			continue
 		}
 		runtime.GOMAXPROCS(procs[c%len(procs)])
-		one(h, c)
+		one(h, layer, c)
 	}
 	runtime.GOMAXPROCS(16)
 }
 
-func one(h *harness.H, c int) {
-	r := h.Rand("stress", c)
+func one(h *harness.H, layer string, c int) {
+	r := h.Rand(layer, c)
 	h.Eval()
 	rfs, log := recfs.New(xfs.NewMem())
 	var inj atomic.Uint64
@@ -112,6 +127,12 @@ func one(h *harness.H, c int) {
 	log.Inject = func(call, path string) {
 		x := inj.Add(1)
 		v := (x*0x9E3779B97F4A7C15 ^ seed) >> 40 % 100
+		// widen the window between GC's byte copy and its index rewrite: the calls on
+		// the compaction copy (N.domain_gc) are real suspension points
+		if strings.HasSuffix(path, "_gc") && v < 60 {
+			time.Sleep(time.Duration(100+v*10) * time.Microsecond)
+			return
+		}
 		switch {
 		case v < 2:
 			runtime.Gosched()
@@ -119,7 +140,7 @@ func one(h *harness.H, c int) {
 			time.Sleep(time.Duration(50+v*100) * time.Microsecond)
 		}
 	}
-	w := &world{h: h, c: c, fs: rfs, log: log, specs: map[uint32]cskit.ChanSpec{}, model: cskit.NewModel(), ctx: context.Background()}
+	w := &world{h: h, c: c, layer: layer, fs: rfs, log: log, specs: map[uint32]cskit.ChanSpec{}, model: cskit.NewModel(), ctx: context.Background(), ever: map[uint32]map[string]int64{}}
 	fileSize := []int64{1, 64, 400, 1 << 30}[r.Intn(4)]
 	open := func() error {
 		db, err := cesium.Open(w.ctx, "db", cesium.WithFS(rfs), cesium.WithFileSizeCap(telem.Size(fileSize)),
@@ -166,16 +187,36 @@ func one(h *harness.H, c int) {
 		for s := 0; s < 4; s++ {
 			if m := writeSession(w, prng.New(int64(seed), "pre", g*10+s), g, s, 100+g*10+s); m != nil {
 				mergeInto(w.model, m)
+				for _, k := range m.Keys() {
+					if w.ever[k] == nil {
+						w.ever[k] = map[string]int64{}
+					}
+					for _, sm := range m.All(k) {
+						w.ever[k][string(sm.Val)] = sm.TS
+					}
+				}
 			}
 		}
 	}
 
+	if layer == "stress" {
+		// tombstones for the GC worker to compact are created BEFORE the concurrent phase;
+		// deletes racing GC are the subject of the delgc layer
+		rr := prng.New(int64(seed), "deleter", 0)
+		for i := 0; i < nDeletes; i++ {
+			deleter(w, rr)
+		}
+	}
 	var wg, uwg sync.WaitGroup
+	var delDone atomic.Bool
 	models := make([]*cskit.Model, 0, 16)
 	var mmu sync.Mutex
 	stop := make(chan struct{})
 	finished := make(chan struct{})
 	spawn := func(name string, f func()) {
+		if os.Getenv("VERIF_C09_SEQ") != "" && name != "deleter" && name != "gc" { // exploration knob
+			return
+		}
 		g := &wg
 		if name == "reader" || name == "streamer" || name == "metrics" {
 			g = &uwg // unbounded workers: run until stop
@@ -242,13 +283,27 @@ func one(h *harness.H, c int) {
 	}
 	spawn("deleter", func() {
 		rr := prng.New(int64(seed), "deleter", 0)
-		for i := 0; i < 12; i++ {
+		for i := 0; i < nDeletes && layer == "delgc"; i++ {
 			deleter(w, rr)
+			if i%3 == 0 {
+				time.Sleep(150 * time.Microsecond)
+			}
 		}
+		delDone.Store(true)
 	})
 	spawn("gc", func() {
-		for i := 0; i < 8; i++ {
-			if err := w.db.VerifGarbageCollect(w.ctx); err != nil {
+		for i := 0; i < 400 && (i < 8 || !delDone.Load()); i++ {
+			if os.Getenv("VERIF_C09_NOGC") != "" { // exploration knob, never set by registered commands
+				break
+			}
+			if os.Getenv("VERIF_C09_EXCL") != "" {
+				exclMu.Lock()
+			}
+			err := w.db.VerifGarbageCollect(w.ctx)
+			if os.Getenv("VERIF_C09_EXCL") != "" {
+				exclMu.Unlock()
+			}
+			if err != nil {
 				w.noteErr("gc", err)
 			}
 			w.done("gc")
@@ -289,7 +344,7 @@ func one(h *harness.H, c int) {
 		v := stall.Judge("synnaxlabs/cesium", 5*time.Second)
 		dumpPath := writeDump(c, v.Dump)
 		if v.Deadlock {
-			h.Violation("stress", c, "c09:deadlock:"+deadlockShape(v.Dump), "all workload goroutines parked in channel/sync waits in two dumps 5 s apart: "+v.Reason+" (dump: "+dumpPath+")", map[string]any{"dump": dumpPath})
+			h.Violation(layer, c, "c09:deadlock:"+deadlockShape(v.Dump), "all workload goroutines parked in channel/sync waits in two dumps 5 s apart: "+v.Reason+" (dump: "+dumpPath+")", map[string]any{"dump": dumpPath})
 		} else {
 			h.Inconclusive("watchdog: " + v.Reason)
 		}
@@ -302,13 +357,14 @@ func one(h *harness.H, c int) {
 		mergeInto(w.model, m)
 	}
 	nops := w.ops.Load()
+	_ = nops
 	h.Count("operations_completed", int(nops))
 	h.Count("fs_calls", int(log.Calls.Load()))
 	check := func(phase string) {
 		for _, k := range w.model.Keys() {
 			fr, err := w.db.Read(w.ctx, telem.TimeRangeMax, k)
 			if err != nil {
-				h.Violation("stress", c, "c09:final-read-error:"+phase, fmt.Sprintf("final read of channel %d failed: %v", k, err), map[string]any{"seed": seed})
+				h.Violation(layer, c, "c09:"+nsOf(layer)+"final-read-error:"+phase, fmt.Sprintf("final read of channel %d failed: %v", k, err), map[string]any{"seed": seed})
 				continue
 			}
 			var got [][]byte
@@ -328,19 +384,39 @@ func one(h *harness.H, c int) {
 				} else if int(k) > nWriterGroups*3 {
 					kind = "delete-group"
 				}
-				h.Violation("stress", c, fmt.Sprintf("c09:not-serializable:%s:%s", kind, phase),
-					fmt.Sprintf("final content of channel %d (%s) differs from the only serial result: %d samples, expected %d", k, w.specs[k].DT, len(got), len(want)),
-					map[string]any{"seed": seed, "channel": k, "got": len(got), "want": len(want), "file_size": fileSize})
+				// describe the difference: which timestamps are missing / unexpected
+				wantSet := map[string]int64{}
+				for _, s := range want {
+					wantSet[string(s.Val)] = s.TS
+				}
+				gotSet := map[string]bool{}
+				var extra []string
+				for _, g := range got {
+					gotSet[string(g)] = true
+					if _, ok := wantSet[string(g)]; !ok && len(extra) < 6 {
+						ts, known := w.everTS(k, g)
+						extra = append(extra, fmt.Sprintf("ts=%d known=%v", ts, known))
+					}
+				}
+				var missing []int64
+				for _, s := range want {
+					if !gotSet[string(s.Val)] && len(missing) < 6 {
+						missing = append(missing, s.TS)
+					}
+				}
+				h.Violation(layer, c, fmt.Sprintf("c09:%snot-serializable:%s:%s", nsOf(layer), kind, phase),
+					fmt.Sprintf("final content of channel %d (%s) differs from the only serial result: %d samples, expected %d; missing ts %v; unexpected %v", k, w.specs[k].DT, len(got), len(want), missing, extra),
+					map[string]any{"seed": seed, "channel": k, "got": len(got), "want": len(want), "file_size": fileSize, "missing": missing, "unexpected": extra, "deletes": w.delLog})
 			}
 		}
 	}
 	check("live")
 	if err := w.db.Close(); err != nil {
-		h.Violation("stress", c, "c09:close-error", "DB.Close after all operations returned failed: "+err.Error(), nil)
+		h.Violation(layer, c, "c09:close-error", "DB.Close after all operations returned failed: "+err.Error(), nil)
 	}
 	checkIndexFiles(w)
 	if err := open(); err != nil {
-		h.Violation("stress", c, "c09:reopen-error", "cesium.Open after close failed: "+err.Error(), nil)
+		h.Violation(layer, c, "c09:reopen-error", "cesium.Open after close failed: "+err.Error(), nil)
 	} else {
 		check("reopened")
 		_ = w.db.Close()
@@ -377,6 +453,16 @@ func hashStrings(s []string) uint64 {
 		h = (h ^ 0xff) * 1099511628211
 	}
 	return h
+}
+
+var exclMu sync.Mutex // exploration knob VERIF_C09_EXCL: serialise deletes and GC passes
+
+// nsOf separates the signatures of the delete-racing-GC layer from the main layer's.
+func nsOf(layer string) string {
+	if layer == "delgc" {
+		return "delgc:"
+	}
+	return ""
 }
 
 func mergeInto(dst, src *cskit.Model) {
@@ -632,12 +718,21 @@ func deleter(w *world, r *prng.R) {
 		return
 	}
 	a := stamps[r.Intn(len(stamps))]
-	b := a + int64(r.Range(1, 200))
+	b := a + int64(r.Range(1, 60))
 	chans := []uint32{grp.Data[0].Key}
 	if r.Bool() {
 		chans = append(chans, grp.Data[1].Key)
 	}
+	if os.Getenv("VERIF_C09_EXCL") != "" {
+		exclMu.Lock()
+	}
 	err := w.db.DeleteTimeRange(w.ctx, chans, telem.TimeRange{Start: telem.TimeStamp(a), End: telem.TimeStamp(b)})
+	if os.Getenv("VERIF_C09_EXCL") != "" {
+		exclMu.Unlock()
+	}
+	w.mu.Lock()
+	w.delLog = append(w.delLog, fmt.Sprintf("%v [%d,%d) err=%v", chans, a, b, err))
+	w.mu.Unlock()
 	if err != nil {
 		w.noteErr("DeleteTimeRange", err)
 		w.h.Inconclusive("delete-engine-error")
@@ -717,18 +812,18 @@ func checkIndexFiles(w *world) {
 			sz := binary.LittleEndian.Uint32(b[i+22:])
 			w.h.Count("index_pointers_checked", 1)
 			if e < s || s < prevEnd {
-				w.h.Violation("stress", w.c, "c09:persisted-index-unsorted-or-overlapping", fmt.Sprintf("%s pointer %d [%d,%d) after end %d", p, i/26, s, e, prevEnd), nil)
+				w.h.Violation(w.layer, w.c, "c09:"+nsOf(w.layer)+"persisted-index-unsorted-or-overlapping", fmt.Sprintf("%s pointer %d [%d,%d) after end %d", p, i/26, s, e, prevEnd), nil)
 				break
 			}
 			prevEnd = e
 			fp := fmt.Sprintf("db/%s/%d.domain", d.Name(), fk)
 			if fi, err := root.Stat(fp); err != nil || int64(off)+int64(sz) > fi.Size() {
-				w.h.Violation("stress", w.c, "c09:persisted-pointer-outside-file", fmt.Sprintf("%s pointer %d -> %s off=%d size=%d", p, i/26, fp, off, sz), nil)
+				w.h.Violation(w.layer, w.c, "c09:"+nsOf(w.layer)+"persisted-pointer-outside-file", fmt.Sprintf("%s pointer %d -> %s off=%d size=%d", p, i/26, fp, off, sz), nil)
 				break
 			}
 		}
 		if len(b)%26 != 0 {
-			w.h.Violation("stress", w.c, "c09:persisted-index-bad-length", fmt.Sprintf("%s has %d bytes", p, len(b)), nil)
+			w.h.Violation(w.layer, w.c, "c09:"+nsOf(w.layer)+"persisted-index-bad-length", fmt.Sprintf("%s has %d bytes", p, len(b)), nil)
 		}
 	}
 }
